@@ -105,14 +105,16 @@ PROPS = {
              "bit-flipped, other instance, user session, admin session, admin-at-login-then-demoted, forged flag) x 8 "
              "targets (self, other user, admin, non-existent, invalid names, empty) + 19 raw body shapes per endpoint "
              "(not JSON, wrong types, extra / duplicate / case-variant keys, empty and missing fields, both credentials) "
-             "+ 150 (1500) random requests; expired/future tokens are sealed with the factory's own AEAD.",
+             "+ 150 (1500) random requests; expired/future tokens are sealed with the factory's own AEAD; logins under "
+             "variants of an account's name (realm suffix that is itself an account or not, case, white space, NUL) with "
+             "the base account's password, and what a token so obtained can do.",
         trusted=["encoding/json and net/http are transports: the model receives the decoded request fields", T_CRYPTO,
                  "AES-GCM as ideal AEAD (C07)"],
         partial=["the running binary over real sockets is not exercised in this tier"],
     ),
     "C07": dict(
         modules=["Whawty.Props.C07"],
-        suites=[("overlay", "v07")],
+        suites=[("overlay", "v07"), ("overlay-race", "v07c")],
         level_text="The factory is modelled over an IDEAL AEAD (Open succeeds exactly on pairs it sealed): "
                    "accept_iff_issued (accept <=> the decoded halves are exactly a sealed pair whose plaintext parses "
                    "strictly and whose age is within [0, lifetime]; the returned identity is the sealed one), "
@@ -124,7 +126,9 @@ PROPS = {
              "bit flip of nonce||ciphertext (sampled after the second token in quick), character mutations of the text, "
              "prefix/suffix truncations, extensions, nonce lengths 0/11/13, other-instance tokens and cross-instance "
              "splices; all pairwise nonce/ciphertext splices; garbage; 2000 (20000) further issuances for nonce "
-             "distinctness.",
+             "distinctness, sequentially and from 8 goroutines; 16 goroutines checking the tokens of 8 identities "
+             "concurrently for 250 ms (3 s) — every accepted check returns the identity its own token was issued "
+             "for; the concurrent part again in a binary built with the Go race detector.",
         trusted=["AES-GCM behaves as an ideal AEAD (unforgeability) and crypto/rand never repeats a 96-bit nonce: "
                  "hypotheses of the theorems, observed only", T_GO + ": encoding/base64 (modelled), strconv (modelled)"],
         partial=["nonce distinctness is a probabilistic fact about crypto/rand: observed over the run"],
@@ -234,7 +238,9 @@ PROPS = {
                    "theorems over the WebApi model. The real callback, a real saslauthd socket served by the agent, the "
                    "real mux (basic-auth, /api/authenticate), ldapHandler.Bind and the built binary's authenticate "
                    "command are compared with store.Dir.Authenticate on the same directory.",
-        rule="700 (6000) credential pairs over 32 names (existing users incl. names with '@', 255/256/257-byte passwords, "
+        rule="Two (six) agents: upgrades off, and local upgrades + zxcvbn policy with every record under the non-default set "
+             "(logins trigger internal upgrades that succeed for some users and are refused by the policy for others); "
+             "realm-suffixed forms of existing names with the BASE user's password; 700 (6000) credential pairs over 32 names (existing users incl. names with '@', 255/256/257-byte passwords, "
              "case/space variants, path aliases, bind-name forms) x right password / near misses (case, trim, truncation, "
              "NUL, up to the first colon) / another user's password / empty / random bytes; 12 users with passwords "
              "special in one transport (':' , non-BMP, JSON escapes, whitespace, NUL, invalid UTF-8).",
@@ -306,7 +312,7 @@ PROPS = {
     ),
     "C10": dict(
         modules=["Whawty.Props.C10"],
-        suites=[("overlay", "v10"), ("overlay", "v10adv")],
+        suites=[("overlay", "v10"), ("overlay", "v10adv"), ("overlay", "v10ab")],
         level_text="The dispatcher, its request channels, the upgrade queue and the hooks notification channel are a "
                    "labelled transition system with one executable successor function; dispatcher_never_stuck (no "
                    "reachable dispatcher deadlock for modes off / remote / local-with-non-blocking-enqueue, ALL "
@@ -316,7 +322,10 @@ PROPS = {
         rule="Schedules: the dispatcher is held inside a login, then a batch (0/3/9/10/11/14 updates x 1-4 logins with "
              "upgradeable or current hashes, wrong passwords, adds) is launched and the dispatcher released one hasher "
              "call at a time; modes off / local / remote with an unreachable and with a stalled (never answering) master; "
-             "watchdog 1.5 s (thorough 5 s) per step with a goroutine dump of the dispatcher; afterwards a probe request.",
+             "watchdog 1.5 s (thorough 5 s) per step with a goroutine dump of the dispatcher; afterwards a probe request; "
+             "log-point adversary and stress runs; abandoned clients: 1-6 complete requests on /api/authenticate, "
+             "/basic-auth and the saslauthd socket whose clients disconnect while the dispatcher is held, then probes "
+             "on the agent interface and the socket.",
         trusted=[T_GO + ": channel semantics (FIFO, blocking send on a full channel, select/default) are what the "
                  "transition system encodes", T_CRYPTO],
         partial=["'eventually' needs fairness of Go's select and the OS scheduler: runtime hypotheses; the run observes "
@@ -324,7 +333,7 @@ PROPS = {
     ),
     "C11": dict(
         modules=["Whawty.Props.C11"],
-        suites=[("overlay", "v11"), ("overlay", "v11g"), ("overlay", "v11s")],
+        suites=[("overlay", "v11"), ("overlay", "v11g"), ("overlay", "v11s"), ("overlay-race", "v11")],
         level_text="linCheckFinal (memoised Wing-Gong search, re-validated by validLin and the final-state test) is sound: an accepted history has a "
                    "linearization that contains every operation, respects real time and reproduces every response "
                    "(validLin_spec) and ends in the observed idle store; a rejection by the exhaustive search is conclusive "
@@ -339,7 +348,8 @@ PROPS = {
              "logins and updates of the same users in flight together); (c) 192 (3200) staged schedules: the dispatcher is "
              "stepped into an upgradeable login while remove+add / update / remove / set-admin+update of the SAME user "
              "are already queued, so that the internal upgrade races with them under the dispatcher's random select. "
-             "The linearization must also END in the observed idle state (linCheckFinal). After quiescence the directory (users, admin "
+             "The linearization must also END in the observed idle state (linCheckFinal); (d) the free-running histories "
+             "again in a binary built with the Go race detector (a reported race is a violation). After quiescence the directory (users, admin "
              "flags, which known password authenticates) must equal the linearization's final state and pass Check.",
         trusted=[T_GO, T_CRYPTO, "logical clocks (one atomic counter) for invocation / response order"],
         partial=["histories longer than 10 operations that the memoised search rejects are reported as a correspondence "
@@ -528,17 +538,17 @@ def run_hdrv_pam(suite, tier, seed, workdir, filt):
     yield from run_hdrv(suite, tier, seed, workdir, filt, pam=True)
 
 
-def build_agent_test(workdir):
+def build_agent_test(workdir, race=False):
     """`go test -c -overlay`: the test files of harness/overlay are compiled INTO package main of
-    /repo/cmd/whawty-auth (working tree) without touching /repo."""
+    /repo/cmd/whawty-auth (working tree) without touching /repo. race=True: with the Go race detector."""
     import json, glob
     ov = {"Replace": {}}
     for f in sorted(glob.glob(os.path.join(HARN, "overlay", "*_test.go"))):
         ov["Replace"][os.path.join(REPO, "cmd", "whawty-auth", os.path.basename(f))] = f
     ovf = os.path.join(workdir, "overlay.json")
     json.dump(ov, open(ovf, "w"))
-    out = os.path.join(workdir, "agent.test")
-    r = subprocess.run(["go", "test", "-c", "-vet=off", "-overlay", ovf, "-o", out, "./cmd/whawty-auth"], cwd=REPO, env=GOENV,
+    out = os.path.join(workdir, "agent.race.test" if race else "agent.test")
+    r = subprocess.run(["go", "test", "-c", "-vet=off"] + (["-race"] if race else []) + ["-overlay", ovf, "-o", out, "./cmd/whawty-auth"], cwd=REPO, env=GOENV,
                        stdout=subprocess.PIPE, stderr=subprocess.STDOUT, text=True)
     if r.returncode != 0 or not os.path.exists(out):
         raise HarnessError("go test -c -overlay of cmd/whawty-auth failed:\n" + r.stdout[-3000:])
@@ -554,8 +564,8 @@ def build_agent_bin(workdir):
     return out
 
 
-def run_overlay(suite, tier, seed, workdir, filt, nshards=None):
-    exe = build_agent_test(workdir)
+def run_overlay(suite, tier, seed, workdir, filt, nshards=None, race=False):
+    exe = build_agent_test(workdir, race)
     agent_bin = build_agent_bin(workdir)
     n = nshards or NPROC
 
@@ -567,6 +577,8 @@ def run_overlay(suite, tier, seed, workdir, filt, nshards=None):
         env = dict(GOENV, VERIF_SUITE=suite, VERIF_SEED=str(seed), VERIF_TIER=tier, VERIF_SHARD=str(i),
                    VERIF_NSHARDS=str(n), VERIF_WORK=sw, VERIF_OUT=lp, VERIF_BIN=agent_bin)
         env.pop("WHAWTY_AUTH_DEBUG", None)
+        if race:
+            env["GORACE"] = "halt_on_error=1 exitcode=66"
         r = subprocess.run([exe, "-test.run", "^TestVerif$", "-test.count=1", "-test.timeout=30m"], cwd=sw, env=env,
                            stdout=subprocess.PIPE, stderr=subprocess.STDOUT, text=True)
         lines = []
@@ -575,7 +587,11 @@ def run_overlay(suite, tier, seed, workdir, filt, nshards=None):
         if r.returncode != 0:
             # a panic / deadlock / test failure in the real code under the harness is an observation
             tail = " | ".join(r.stdout.strip().split("\n")[-12:])[:1500].replace(" => ", " -> ")
-            lines.append("law.%s.agent_harness_completes shard=%d exit=%d %s => f" % (suite, i, r.returncode, tail))
+            if race and r.returncode == 66:
+                tail = " | ".join([l for l in r.stdout.split("\n") if l.strip()][:40])[:2500].replace(" => ", " -> ")
+                lines.append("law.%s.no_data_race shard=%d %s => f" % (suite, i, tail))
+            else:
+                lines.append("law.%s.agent_harness_completes shard=%d exit=%d %s => f" % (suite, i, r.returncode, tail))
         if filt is not None:
             lines = [l for l in lines if l in filt_set]
         open(lp, "w").write("\n".join(lines) + ("\n" if lines else ""))
@@ -596,7 +612,14 @@ def run_overlay4(suite, tier, seed, workdir, filt):
     yield from run_overlay(suite, tier, seed, workdir, filt, nshards=4)
 
 
-RUNNERS = {"hdrv": run_hdrv, "hdrv+pam": run_hdrv_pam, "overlay": run_overlay, "overlay4": run_overlay4}
+def run_overlay_race(suite, tier, seed, workdir, filt):
+    """The same suite in a binary built with the Go race detector (4 shards): a reported data race in
+    the agent's code is an observation (`law.<suite>.no_data_race ... => f`)."""
+    yield from run_overlay(suite, tier, seed + 7919, workdir, filt, nshards=4, race=True)
+
+
+RUNNERS = {"hdrv": run_hdrv, "hdrv+pam": run_hdrv_pam, "overlay": run_overlay, "overlay4": run_overlay4,
+           "overlay-race": run_overlay_race}
 
 
 def run_suite(prop, tier, seed, workdir, filt=None):
